@@ -43,9 +43,33 @@ def _unascii(x):
     return x
 
 
+MAX_CASES_PER_TLC_RUN = 2500
+
+
 def spec_results(pid, cases, name="jinja", workers=16, timeout=1800, coverage=False):
     """TLC renders every (case, data) pair with the abstract interpreter.
-    Returns ({(case id, data index): observable}, TLCResult)."""
+    Returns ({(case id, data index): observable}, TLCResult).  Large case lists are split over several TLC
+    runs (one run over ten thousand programs keeps every program in every state and drives the JVM into
+    garbage-collection thrash); the returned TLCResult then carries the summed state counts, the joined
+    output and the union of the violated invariants."""
+    if len(cases) > MAX_CASES_PER_TLC_RUN:
+        res, parts = {}, []
+        for bi, part in enumerate(core.chunks(cases, MAX_CASES_PER_TLC_RUN)):
+            o, r = spec_results(pid, part, f"{name}_p{bi}", workers, timeout, coverage)
+            res.update(o)
+            parts.append(r)
+        tot = parts[-1]
+        tot.generated = sum(p.generated for p in parts)
+        tot.distinct = sum(p.distinct for p in parts)
+        tot.wall = sum(p.wall for p in parts)
+        tot.depth = max(p.depth for p in parts)
+        tot.invariant_violated = sorted({i for p in parts for i in p.invariant_violated})
+        tot.property_violated = any(p.property_violated for p in parts)
+        tot.deadlock = any(p.deadlock for p in parts)
+        tot.error = any(p.error for p in parts)
+        tot.rc = max(p.rc for p in parts)
+        tot.out = "\n".join(p.out for p in parts)
+        return res, tot
     d = core.workdir(pid, name + "_cases")
     f = d / "cases.json"
     f.write_text(json.dumps(_ascii(cases)))
